@@ -105,6 +105,17 @@ def view_same(h0, h1, g):
                   z3.ForAll([s, d], edge(h0, g, s, d) == edge(h1, g, s, d)))
 
 
+def justified_clause(h, g, N, R, c):
+    """every element of R is a start node or has a G-predecessor in R; proved in existential form on
+    the callee side, assumed in skolemised form (a fresh witness function per call) on the caller side"""
+    x, u = X(), X('u')
+    if c.side == 'callee':
+        return z3.ForAll([x], z3.Implies(R[x], z3.Or(N[x], z3.Exists([u], z3.And(R[u], edge(h, g, u, x))))))
+    pred = z3.Function('reach_pred!%d' % next(hp._counter), H, H)
+    c.sk['pred'] = pred
+    return z3.ForAll([x], z3.Implies(R[x], z3.Or(N[x], z3.And(R[pred(x)], edge(h, g, pred(x), x)))), patterns=[R[x]])
+
+
 def closed_under(h, g, Z):
     """Z is closed under the edges of graph g"""
     u, v = X('u'), X('v')
@@ -390,6 +401,7 @@ def make():
             ('closed_under_edges', closed(h0, g, R)),
             ('only_nodes', hp.subset(R, V(h0, g))),
             ('fresh', z3.And(c.res.t >= h0.alloc, c.res.t < h1.alloc)),
+            ('justified', justified_clause(h0, g, N, R, c)),
         ]
         if c.side == 'callee':
             out.append(('least', hp.subset(R, c.sk['Z'])))
@@ -415,6 +427,7 @@ def make():
             ('processed_closed', z3.ForAll([u, v], z3.Implies(cond, R[v]))),
             ('start_pending_or_node', z3.ForAll([x], z3.Implies(N[x], z3.Or(V(c.h0, g)[x], Q[x])))),
             ('R_nodes_or_start', z3.ForAll([x], z3.Implies(R[x], z3.Or(V(c.h0, g)[x], N[x])))),
+            ('R_justified', z3.ForAll([x], z3.Implies(R[x], z3.Or(N[x], z3.Exists([u], z3.And(R[u], edge(c.h0, g, u, x))))))),
             ('alloc', h.alloc >= lc.h_entry.alloc),
         ] + frame(c.h0, h, c.h0.alloc)
 
@@ -435,6 +448,39 @@ def make():
         requires=reach_req, ensures=reach_ens, skolems=reach_skolems,
         raises={'RuntimeError': lambda c: z3.Not(hp.subset(c.nodes.x.mem, V(c.h0, c.self.t)))},
         loops={1: reach_l1, 2: reach_l2}, touches={'sets'}, loop_touches={1: {'sets'}, 2: {'sets'}}, owner='C13'))
+
+    # -- compute_SCCs: ASSUMED contract (the statement of C12; the body - iterative Nuutila with
+    #    explicit stacks, integer time stamps and a yield inside try/except inside while - is out of
+    #    the generator's subset; C12 checks it by exhaustive bounded exploration) --------------------
+    def scc_ens(c):
+        h0, h1, g = c.h0, c.h1, c.G.t
+        if 'E' not in c.sk:
+            c.sk['E'] = hp.fresh('E_scc', hp.Rel)                                    # the graph's edge relation, named
+            c.sk['compof'] = z3.Function('scc_of!%d' % next(hp._counter), H, I)       # the component that holds a node
+        E, compof = c.sk['E'], c.sk['compof']
+        Rt = hp.rtc(E)
+        a, b, x, y = X('a'), X('b'), X(), X('y')
+        r, r2 = z3.Int('r!scc'), z3.Int('r2!scc')
+        C = lambda q: h1.set_of(q)       # noqa
+        return [
+            ('edge_relation', hp.FA([a, b], E[a, b] == edge(h0, g, a, b), [E[a, b], succ(h0, g, a)[b]])),
+            ('components_are_new_lists', z3.ForAll([r], z3.Implies(c.yR[r], z3.And(r >= h0.alloc, r < h1.alloc)))),
+            ('components_nonempty', z3.ForAll([r], z3.Implies(c.yR[r], hp.nonempty(C(r))))),
+            ('components_within_nodes', z3.ForAll([r, x], z3.Implies(z3.And(c.yR[r], C(r)[x]), V(h0, g)[x]))),
+            ('mutually_reachable', z3.ForAll([r, x, y], z3.Implies(z3.And(c.yR[r], C(r)[x], C(r)[y]), Rt[x, y]),
+                                             patterns=[z3.MultiPattern(c.yR[r], C(r)[x], C(r)[y])])),
+            ('maximal', z3.ForAll([r, x, y], z3.Implies(z3.And(c.yR[r], C(r)[x], V(h0, g)[y], Rt[x, y], Rt[y, x]), C(r)[y]),
+                                  patterns=[z3.MultiPattern(c.yR[r], C(r)[x], Rt[x, y])])),
+            ('every_node_in_a_component', z3.ForAll([x], z3.Implies(V(h0, g)[x], z3.And(c.yR[compof(x)], C(compof(x))[x])))),
+            ('in_one_component_only', z3.ForAll([r, r2, x], z3.Implies(z3.And(c.yR[r], c.yR[r2], C(r)[x], C(r2)[x]), r == r2))),
+        ]
+
+    K.append(Contract(
+        'compute_SCCs', 'graph', [('G', 'graph')], generator='ref',
+        requires=lambda c: [('wf', wfG(c.h0, c.G.t))], ensures=scc_ens,
+        touches={'sets'}, hints={'yield_ty': 'dlist'}, owner='C12', assumed=True,
+        note='ASSUMED: the statement of C12 (each node in exactly one yielded list; same list iff mutually reachable), over '
+             'rtc = reflexive-transitive closure of the edge relation; yielded lists are new objects without repetitions'))
 
     return K
 
